@@ -1154,6 +1154,7 @@ class Exec:
                 kw.update(d)
             else:
                 kw[k.arg] = self.ev(k.value, env)
+        self.cur_call = e
         return self.call_value(fn, args, kw, e)
 
     def walrus_only(self, e, env):
